@@ -456,14 +456,16 @@ def run_hostile(spec, rec, m):
         judge_hostile(net, code, dict(tk, target="address"), rec, good, msg, "reference_signature")
         done += 2
         for k, (cls, text) in enumerate(hostile_texts(rng, r, s, hdr, 150 if not pure else 10)):
-            if pure and cls in ("header_sweep", "bit_flip", "b64_len_other") and k % 16:
+            if pure and ((cls in ("header_sweep", "bit_flip", "b64_len_other") and k % 16) or (cls in ("special_r", "special_s") and k % 3)):
                 continue
             target = "key" if (k + rnd) & 1 else "address"
             judge_hostile(net, code, dict(tk, target=target), rec, text, msg, cls)
             done += 1
             if done >= n and rnd > 0:
                 break
-        for cls, tkd, text in crafted_aliases(rng, z):
+        for ai, (cls, tkd, text) in enumerate(crafted_aliases(rng, z)):
+            if pure and ai % 3:
+                continue
             for target in ("key", "address"):
                 judge_hostile(net, code, dict(tkd, target=target), rec, text, msg, cls)
                 done += 1
